@@ -86,9 +86,53 @@ def _row(args):
     return spec, dist, n, errors
 
 
-def transition_matrix(values, data_op, cfg, specs=None, sizes=None, workers=8, pool=None):
+_SRC_HASH = None
+
+
+def source_hash():
+    """SHA-256 over every .py under /repo/phyclone and the harness files the enumeration depends on: a changed
+    working tree can never be served a cached matrix."""
+    global _SRC_HASH
+    if _SRC_HASH is None:
+        import glob
+        import hashlib
+
+        from .framework import REPO, VERIF
+
+        h = hashlib.sha256()
+        files = sorted(glob.glob(os.path.join(REPO, "phyclone", "**", "*.py"), recursive=True))
+        files += [os.path.join(VERIF, "harness", "pv", f) for f in ("kernels.py", "enumrng.py", "trees.py")]
+        for f in files:
+            h.update(f.encode())
+            with open(f, "rb") as fh:
+                h.update(fh.read())
+        _SRC_HASH = h.hexdigest()
+    return _SRC_HASH
+
+
+def transition_matrix(values, data_op, cfg, specs=None, sizes=None, workers=8, pool=None, cache=False):
     """Exact transition matrix of one move from every start tree.
-    Returns dict(specs, P (rows: start), pi, paths, errors, malformed)."""
+    Returns dict(specs, P (rows: start), pi, paths, errors, malformed).
+    cache=True stores the result under /verif/.cache keyed by the repository source hash + inputs."""
+    if cache and specs is None:
+        import hashlib
+        import pickle
+
+        from .framework import VERIF
+
+        key = hashlib.sha256(repr((source_hash(), [[[str(x) for x in r] for r in p] for p in values], data_op, sorted(cfg.items()), sizes)).encode()).hexdigest()[:24]
+        path = os.path.join(VERIF, ".cache", "matrices", key + ".pkl")
+        if os.path.exists(path):
+            with open(path, "rb") as fh:
+                res = pickle.load(fh)
+            res["cached"] = True
+            return res
+        res = transition_matrix(values, data_op, cfg, specs=None, sizes=sizes, workers=workers, pool=pool, cache=False)
+        os.makedirs(os.path.dirname(path), exist_ok=True)
+        with open(path + ".tmp", "wb") as fh:
+            pickle.dump(res, fh)
+        os.replace(path + ".tmp", path)
+        return res
     n = len(values)
     data = make_data(values, outlier_prob=data_op, sizes=sizes)
     if specs is None:
